@@ -35,3 +35,22 @@ SPEC = dict(
     assumptions=["values are u64; map keys distinct in both operands for the refinement theorem (duplicate-key Vec others are still run in the correspondence)",
                  "union-find histories start from the empty map or a parent<=child forest"],
 )
+
+
+# The tombstone lattices are lattice types of the same crate; their mathematical model
+# (live = inserted \ tombstoned, tombstones = union; see Props/C05.lean) is C05's model, so this
+# property also runs that part (same theorems module, harness mode and oracle as ./check C05).
+def _with_c05_part(spec):
+    import importlib.util, os
+    here = os.path.dirname(os.path.abspath(__file__))
+    sp = importlib.util.spec_from_file_location("check_C05_for_C04", os.path.join(here, "C05.py"))
+    mod = importlib.util.module_from_spec(sp)
+    sp.loader.exec_module(mod)
+    c5 = mod.SPEC
+    keys = ("lean_project", "props_module", "driver", "harness", "bin", "mode", "cases", "extra_args",
+            "translate", "extra", "theorems", "harness_timeout", "driver_timeout")
+    spec["parts"] = list(spec["parts"]) + [{k: c5[k] for k in keys if k in c5}]
+    return spec
+
+
+SPEC = _with_c05_part(SPEC)
